@@ -113,6 +113,15 @@ type TwoOfAKind struct {
 	Q Simple
 }
 
+// ManyOpt has five optional fields; its values cover all 32 presence patterns
+// (absent fields in front of, between and behind present ones).
+type ManyOpt struct {
+	A, B, C, D, E *int64
+}
+type ManyOptPairs struct {
+	A, B, C, D, E *int64
+}
+
 const schemaSrc = `
 type Simple struct { S String  I Int  B Bool  F Float  Y Bytes }
 type Widths struct { I8 Int I16 Int I32 Int I64 Int U8 Int U16 Int U32 Int U64 Int I Int U Int }
@@ -134,6 +143,8 @@ type Nested struct { Inner Simple  List [Simple] }
 type InferA struct { Name String  Vals [Int] }
 type InferB struct { Other String  Vals [Int] }
 type TwoOfAKind struct { P Simple  Q Simple }
+type ManyOpt struct { A optional Int  B optional Int  C optional Int  D optional Int  E optional Int }
+type ManyOptPairs struct { A optional Int  B optional Int  C optional Int  D optional Int  E optional Int } representation listpairs
 type Foo1 struct { A String  N Int }
 type Foo2 struct { X Bool  L [Int] }
 `
@@ -231,10 +242,32 @@ var vocab = []vtype{
 		vals: []func() interface{}{func() interface{} {
 			return &TwoOfAKind{P: Simple{S: "p", Y: []byte{}}, Q: Simple{S: "q", Y: []byte{1}}}
 		}}},
+	{name: "ManyOpt", schema: "ManyOpt", ptr: func() interface{} { return (*ManyOpt)(nil) }, vals: manyOptVals(false)},
+	{name: "ManyOptPairs", schema: "ManyOptPairs", ptr: func() interface{} { return (*ManyOptPairs)(nil) }, vals: manyOptVals(true)},
 	{name: "pk1.Foo", schema: "Foo1", inferable: true, ptr: func() interface{} { return (*pk1.Foo)(nil) },
 		vals: []func() interface{}{func() interface{} { return &pk1.Foo{A: "a", N: 1} }}},
 	{name: "pk2.Foo", schema: "Foo2", inferable: true, ptr: func() interface{} { return (*pk2.Foo)(nil) },
 		vals: []func() interface{}{func() interface{} { return &pk2.Foo{X: true, L: []int64{4}} }}},
+}
+
+func manyOptVals(pairs bool) []func() interface{} {
+	var out []func() interface{}
+	for mask := 0; mask < 32; mask++ {
+		mask := mask
+		out = append(out, func() interface{} {
+			f := func(bit int) *int64 {
+				if mask>>uint(bit)&1 == 1 {
+					return ip(int64(10*bit + 1))
+				}
+				return nil
+			}
+			if pairs {
+				return &ManyOptPairs{f(0), f(1), f(2), f(3), f(4)}
+			}
+			return &ManyOpt{f(0), f(1), f(2), f(3), f(4)}
+		})
+	}
+	return out
 }
 
 var explicitTS *schema.TypeSystem
